@@ -19,7 +19,8 @@ ID = 'C10'
 LEVEL = 'exploration'
 DECIDING = ['c10:imports_joined', 'c10:dotted_roundtrips']
 RULE = ('a case = 2-3 generated sys.path roots (two of them with names that are string prefixes of '
-        'each other), each a tree to depth 3 over three clashing names, every node module / regular '
+        'each other), each a tree to depth 3 over three clashing names (below the top level also names of frozen '
+        'standard-library modules: io, abc, stat, site, codecs), every node module / regular '
         'package / namespace package / module+directory clash, attributes named like sub-modules; '
         'roots given in random order. ~24 import statements per case (import a, import a.b, import '
         'a.b.c, import .. as, from a import b, from a.b import c, star import + use, relative '
@@ -106,6 +107,14 @@ def gen_statements(rnd, files_by_root, n):
     out = []
     for _ in range(n):
         a, b, c = (rnd.choice(N) for _ in range(3))
+        # below the top level a component may be spelled like a (frozen) standard-library module
+        sub = [x for x in trees.STDLIB_NAMES
+               if any(('/' + x + '.py') in ('/' + r) or ('/' + x + '/') in ('/' + r)
+                      for files in files_by_root.values() for r in files)]
+        if sub and rnd.random() < 0.5:
+            b = rnd.choice(sub)
+        if sub and rnd.random() < 0.3:
+            c = rnd.choice(sub)
         form = rnd.choice(['import a', 'import a.b', 'import a.b.c', 'import a as', 'import a.b as',
                            'from a import b', 'from a.b import c', 'from a import b as', 'star',
                            'rel1', 'rel1', 'rel2', 'rel1mod', 'from a.b.c import'])
@@ -136,6 +145,8 @@ def gen_statements(rnd, files_by_root, n):
             if not pk_dirs:
                 continue
             loc = rnd.choice(pk_dirs)
+            if sub and rnd.random() < 0.5:
+                a = rnd.choice(sub)
             if form == 'rel1':
                 s, name, col = 'from . import %s' % a, a, 14
             elif form == 'rel1mod':
